@@ -102,7 +102,8 @@ def make_rasters(rng, n, shapes):
             ras["targets"] = tv
         if rng.random() < 0.3 and all(not isinstance(v, str) and abs(v) < 1e6 and float(v) == int(v)
                                       for row in ras["vals"] for v in row):
-            ras["dtype"] = rng.choice(["int32", "uint8", "int64", "float32"])
+            neg = any(v < 0 for row in ras["vals"] for v in row)
+            ras["dtype"] = rng.choice(["int32", "int64", "float32"] if neg else ["int32", "uint8", "int64", "float32"])
         out.append(ras)
     return out
 
